@@ -291,18 +291,7 @@ def bundled(chk, rng, thorough):
                 chk.case(("bundled-fmt", repr(sorted(d.items())), spec))
     usp, psp = defreg._cache["sp"][0], defreg._cache["sp"][1]
 
-    def readings(t):
-        """every reading of a token by the naming rule (exact spelling; prefix + unit [+ s]), from the reader's tables"""
-        out = set()
-        if t in usp:
-            out.add(("", usp[t]))
-        for p_ in psp:
-            if p_ and t.startswith(p_):
-                rest = t[len(p_):]
-                for r in (rest, rest[:-1] if rest.endswith("s") else None):
-                    if r and r in usp:
-                        out.add((psp[p_], usp[r]))
-        return out
+    readings = defreg.readings
 
     for e, clause in defreg.validate(chk, "Trace_Format", events, label="fmt"):
         sig = {"clause": clause, "fmt": e["fmt"], "short": e["short"], "src": "bundled"}
